@@ -137,10 +137,13 @@ def g_time_ratio(rng):
              "x": P("bdsk.origin.delta", [0.8])},
             {"id": "bdsk", "type": "BDSKModel", "tree_model": "tree", "R": P("bdsk.R", [1.5, 2.0]), "delta": P("bdsk.delta", [1.0, 0.7]), "s": P("bdsk.s", [0.3, 0.4]),
              "rho": P("bdsk.rho", [0.35]), "origin": "bdsk.origin"},
+            {"id": "bd", "type": "BirthDeathModel", "tree_model": "tree", "lambda": P("bd.lambda", [2.1]), "mu": P("bd.mu", [0.9]), "psi": P("bd.psi", [0.4]),
+             "rho": P("bd.rho", [0.3]), "origin": "bdsk.origin"},
             {"id": "joint", "type": "JointDistributionModel", "distributions": ["like", "coal", "ctmc", "bdsk", "tree", "clock.rate", "tree.ratios", "tree.root_height.shifted"]}]
+    leaves.update({"bd.lambda": "positive", "bd.mu": "positive", "bd.psi": "positive", "bd.rho": "unit"})
     leaves.update({"clock.rate.unres": "real", "gtr.rates": "positive", "gtr.freqs": "simplex", "coal.theta": "positive", "expcoal.theta": "positive", "expcoal.growth": "real",
                    "bdsk.origin.delta": "positive", "bdsk.R": "positive", "bdsk.delta": "positive", "bdsk.s": "unit", "bdsk.rho": "unit"})
-    return {"name": "time-ratio", "spec": spec, "evals": ["like", "coal", "expcoal", "coalint", "ctmc", "bdsk", "tree", "joint"], "leaves": leaves,
+    return {"name": "time-ratio", "spec": spec, "evals": ["like", "coal", "expcoal", "coalint", "ctmc", "bdsk", "bd", "tree", "joint"], "leaves": leaves,
             "derived": derived + ["clock.rate", "bdsk.origin"], "tensors": {"tree": "node_heights", "clock": "rates"}}
 
 
